@@ -130,7 +130,7 @@ int main(int argc, char **argv)
         BOUND = atoi(argv[2]); int part = atoi(argv[3]), nparts = atoi(argv[4]); if (argc > 5) t_end = now() + atof(argv[5]);
         NT = 3; SHARED_IN = 0; int idx = 0; long done = 0;
         /* triples that involve at least one operation on a shared object or a run-time computed initial value */
-        static const int hot[] = {9, 11, 13, 15, 21, 22, 31, 37};
+        static const int hot[] = {9, 11, 13, 15, 21, 22, 31, 37, 38, 40};
         for (unsigned a = 0; a < sizeof hot / sizeof hot[0]; a++) for (int j = 0; j < NOPS; j += 3) for (int k = j; k < NOPS; k += 5, idx++) { if (idx % nparts != part || capped) continue; OPI[0] = hot[a]; OPI[1] = j; OPI[2] = k; run_program(); done++; }
         if (capped) printf("CAPPED deadline reached after %ld triples\n", done);
         printf("STAT programs %ld\nSTAT schedules %ld\nSETMAX max_scheduling_points %d\n", done, total_sched, maxpoints);
